@@ -5,25 +5,25 @@ COMMON_TB = []
 
 PROPS = {
     "C09": {
-        "lean_modules": ["JrpcProofs.Props.C09", "JrpcProofs.Facts.Codes", "JrpcProofs.Facts.Wire", "JrpcProofs.Facts.Dispatch", "JrpcProofs.Facts.Framing", "JrpcProofs.Facts.Call", "JrpcProofs.Facts.Cancel", "JrpcProofs.Facts.Interp"],
+        "lean_modules": ["JrpcProofs.Props.C09", "JrpcProofs.Facts.Codes", "JrpcProofs.Facts.Wire", "JrpcProofs.Facts.Dispatch", "JrpcProofs.Facts.Framing", "JrpcProofs.Facts.Call", "JrpcProofs.Facts.Cancel", "JrpcProofs.Facts.Interp", "JrpcProofs.Trans.Wire", "JrpcProofs.Trans.BatchWriter", "JrpcProofs.Trans.HandleFrame"],
         "assumptions": [
             "encoding/json is an oracle: the harness tells the model, per params element, which declared types it decodes into",
             "message texts of library errors are not compared (codes, ids, shape, status and handler invocations are)",
         ],
     },
     "C12": {
-        "lean_modules": ["JrpcProofs.Props.C12", "JrpcProofs.Facts.Dispatch", "JrpcProofs.Facts.Codes", "JrpcProofs.Facts.Call", "JrpcProofs.Facts.Naming"],
+        "lean_modules": ["JrpcProofs.Props.C12", "JrpcProofs.Facts.Dispatch", "JrpcProofs.Facts.Codes", "JrpcProofs.Facts.Call", "JrpcProofs.Facts.Naming", "JrpcProofs.Trans.Naming"],
         "assumptions": [
             "method names start with an ASCII letter (Go identifiers in the harness do); the lower-first formatter slices one byte",
             "encoding/json is an oracle for per-parameter decodability",
         ],
     },
     "C19": {
-        "lean_modules": ["JrpcProofs.Props.C19", "JrpcProofs.Facts.Auth"],
+        "lean_modules": ["JrpcProofs.Props.C19", "JrpcProofs.Facts.Auth", "JrpcProofs.Trans.Auth", "JrpcProofs.Trans.AuthHTTP"],
         "assumptions": ["net/http delivers header and form values as documented; permissions are compared for equality only"],
     },
     "C10": {
-        "lean_modules": ["JrpcProofs.Props.C10", "JrpcProofs.Facts.Call", "JrpcProofs.Facts.Naming", "JrpcProofs.Facts.Frames", "JrpcProofs.Facts.Codes", "JrpcProofs.Facts.Framing", "JrpcProofs.Facts.Interp"],
+        "lean_modules": ["JrpcProofs.Props.C10", "JrpcProofs.Facts.Call", "JrpcProofs.Facts.Naming", "JrpcProofs.Facts.Frames", "JrpcProofs.Facts.Codes", "JrpcProofs.Facts.Framing", "JrpcProofs.Facts.Interp", "JrpcProofs.Trans.NormalizeID", "JrpcProofs.Trans.CancelCtx", "JrpcProofs.Trans.ChanMessage", "JrpcProofs.Trans.ChanClose", "JrpcProofs.Trans.HandleFrame"],
         "assumptions": [
             "gorilla/websocket delivers whole messages and closes the connection itself on WebSocket-level protocol violations",
             "encoding/json classifies each params element (shape, uint64-decodability) — computed by the harness with the real decoder",
@@ -32,14 +32,14 @@ PROPS = {
         "timeout": 1500,
     },
     "C05": {
-        "lean_modules": ["JrpcProofs.Props.C05", "JrpcProofs.Facts.Backoff", "JrpcProofs.Facts.ErrTypes", "JrpcProofs.Facts.Options", "JrpcProofs.Facts.Corr", "JrpcProofs.Facts.Call", "JrpcProofs.Facts.Interp"],
+        "lean_modules": ["JrpcProofs.Props.C05", "JrpcProofs.Facts.Backoff", "JrpcProofs.Facts.ErrTypes", "JrpcProofs.Facts.Options", "JrpcProofs.Facts.Corr", "JrpcProofs.Facts.Call", "JrpcProofs.Facts.Interp", "JrpcProofs.Trans.Backoff"],
         "assumptions": [
             "float64 arithmetic of backoff.next is modelled exactly over the rationals; the differential check allows a relative slack of 2^-40 + 1 ns",
             "rand.Float64() lies in [0,1)",
         ],
     },
     "C11": {
-        "lean_modules": ["JrpcProofs.Props.C11", "JrpcProofs.Facts.Errors", "JrpcProofs.Facts.ErrTypes", "JrpcProofs.Facts.Call"],
+        "lean_modules": ["JrpcProofs.Props.C11", "JrpcProofs.Facts.Errors", "JrpcProofs.Facts.ErrTypes", "JrpcProofs.Facts.Call", "JrpcProofs.Trans.Wire"],
         "assumptions": [
             "the application's error types are parameters: Error/MarshalJSON/UnmarshalJSON/ToJSONRPCError/FromJSONRPCError are evaluated by the harness on the real types and handed to the model as tables",
             "encoding/json transports message strings (valid UTF-8) faithfully",
@@ -50,7 +50,7 @@ PROPS = {
         "assumptions": ["net/http recovers per request on its own; the library-side guarantee is doCall's recover", "the server runs in a child process; crash = the child exits"],
     },
     "C01": {
-        "lean_modules": ["JrpcProofs.Props.C01", "JrpcProofs.Facts.Options", "JrpcProofs.Facts.Call", "JrpcProofs.Facts.OneShot", "JrpcProofs.Facts.Params", "JrpcProofs.Facts.Naming"],
+        "lean_modules": ["JrpcProofs.Props.C01", "JrpcProofs.Facts.Options", "JrpcProofs.Facts.Call", "JrpcProofs.Facts.OneShot", "JrpcProofs.Facts.Params", "JrpcProofs.Facts.Naming", "JrpcProofs.Trans.Naming", "JrpcProofs.Trans.Outs"],
         "assumptions": [
             "encoding/json is a codec parameter (marshal/unmarshal per declared type); splitting a JSON array into raw elements is faithful",
             "the harness's oracle for 'JSON round trip' is json.Unmarshal(json.Marshal(v)) into the declared type, compared with reflect.DeepEqual (floats by value and sign, raw JSON as values)",
@@ -58,7 +58,7 @@ PROPS = {
         ],
     },
     "C20": {
-        "lean_modules": ["JrpcProofs.Props.C20", "JrpcProofs.Facts.Reader", "JrpcProofs.Facts.Params", "JrpcProofs.Facts.Call", "JrpcProofs.Facts.Options"],
+        "lean_modules": ["JrpcProofs.Props.C20", "JrpcProofs.Facts.Reader", "JrpcProofs.Facts.Params", "JrpcProofs.Facts.Call", "JrpcProofs.Facts.Options", "JrpcProofs.Trans.WRC"],
         "assumptions": [
             "net/http streams the upload body faithfully and a blocking body never returns (0, nil); which chunk sizes it returns is taken from the trace",
             "the rendezvous table has no observable trace without hooks: its theorem (C20_meet) is tied by the regenerated skeleton of ReaderParamDecoder and by forcing both arrival orders in the scenarios",
@@ -75,7 +75,7 @@ PROPS = {
         "timeout": 1500,
     },
     "C07": {
-        "lean_modules": ["JrpcProofs.Props.C07", "JrpcProofs.Lemmas.Stream", "JrpcProofs.Facts.Stream", "JrpcProofs.Facts.Frames", "JrpcProofs.Props.Forwarder"],
+        "lean_modules": ["JrpcProofs.Props.C07", "JrpcProofs.Lemmas.Stream", "JrpcProofs.Facts.Stream", "JrpcProofs.Facts.Frames", "JrpcProofs.Props.Forwarder", "JrpcProofs.Trans.ChanMessage", "JrpcProofs.Trans.ChanClose"],
         "assumptions": [
             "the transport is FIFO per direction (TCP, gorilla/websocket, the frame queue): the model's wire is 'announcement, then values, then close'",
             "hooks only delay goroutines; the two sides of the sink/buffer rendezvous are logged independently and reconciled by the replayer",
@@ -84,14 +84,14 @@ PROPS = {
         "timeout": 1500,
     },
     "C08": {
-        "lean_modules": ["JrpcProofs.Props.C08", "JrpcProofs.Lemmas.Stream", "JrpcProofs.Facts.Stream", "JrpcProofs.Facts.Frames", "JrpcProofs.Props.Sweep", "JrpcProofs.Facts.Sweep", "JrpcProofs.Props.Forwarder", "JrpcProofs.Facts.Corr"],
+        "lean_modules": ["JrpcProofs.Props.C08", "JrpcProofs.Lemmas.Stream", "JrpcProofs.Facts.Stream", "JrpcProofs.Facts.Frames", "JrpcProofs.Props.Sweep", "JrpcProofs.Facts.Sweep", "JrpcProofs.Props.Forwarder", "JrpcProofs.Facts.Corr", "JrpcProofs.Trans.ChanMessage", "JrpcProofs.Trans.ChanClose"],
         "assumptions": [
             "as C07; 'eventually closed' is proved as enabledness of the close after each cause (PARTIAL: needs fairness and a consumer that keeps reading or cancels) and observed with a time-out in the scenarios",
         ],
         "timeout": 1500,
     },
     "C02": {
-        "lean_modules": ["JrpcProofs.Props.C02", "JrpcProofs.Props.Epoch", "JrpcProofs.Lemmas.Corr", "JrpcProofs.Facts.Corr", "JrpcProofs.Facts.Frames", "JrpcProofs.Facts.OneShot", "JrpcProofs.Facts.Writers", "JrpcProofs.Facts.Call", "JrpcProofs.Facts.Interp", "JrpcProofs.Facts.ErrTypes"],
+        "lean_modules": ["JrpcProofs.Props.C02", "JrpcProofs.Props.Epoch", "JrpcProofs.Lemmas.Corr", "JrpcProofs.Facts.Corr", "JrpcProofs.Facts.Frames", "JrpcProofs.Facts.OneShot", "JrpcProofs.Facts.Writers", "JrpcProofs.Facts.Call", "JrpcProofs.Facts.Interp", "JrpcProofs.Facts.ErrTypes", "JrpcProofs.Trans.NormalizeID"],
         "assumptions": [
             "hooks only delay goroutines; two log entries written by different goroutines around one channel rendezvous may come in either order and are reconciled by the replayer (tau steps are counted in the evidence)",
             "ids of calls that are inside doRequest at the same time differ (id counter; int64 to float64 keys are injective below 2^53 calls)",
@@ -111,7 +111,7 @@ PROPS = {
         "timeout": 2400,
     },
     "C04": {
-        "lean_modules": ["JrpcProofs.Props.C04", "JrpcProofs.Lemmas.Corr", "JrpcProofs.Facts.Corr", "JrpcProofs.Facts.Backoff", "JrpcProofs.Facts.Writers", "JrpcProofs.Facts.Call", "JrpcProofs.Facts.OneShot", "JrpcProofs.Facts.Interp"],
+        "lean_modules": ["JrpcProofs.Props.C04", "JrpcProofs.Lemmas.Corr", "JrpcProofs.Facts.Corr", "JrpcProofs.Facts.Backoff", "JrpcProofs.Facts.Writers", "JrpcProofs.Facts.Call", "JrpcProofs.Facts.OneShot", "JrpcProofs.Facts.Interp", "JrpcProofs.Trans.Backoff"],
         "assumptions": [
             "hooks only delay goroutines; two log entries written by different goroutines around one channel rendezvous may come in either order and are reconciled by the replayer (tau steps are counted in the evidence)",
             "ids of calls that are inside doRequest at the same time differ (id counter; int64 to float64 keys are injective below 2^53 calls)",
@@ -130,7 +130,7 @@ PROPS = {
         "timeout": 2400,
     },
     "C06": {
-        "lean_modules": ["JrpcProofs.Props.C06", "JrpcProofs.Props.Epoch", "JrpcProofs.Facts.Call", "JrpcProofs.Facts.Cancel", "JrpcProofs.Facts.Corr", "JrpcProofs.Facts.Frames", "JrpcProofs.Facts.Stream", "JrpcProofs.Facts.OneShot"],
+        "lean_modules": ["JrpcProofs.Props.C06", "JrpcProofs.Props.Epoch", "JrpcProofs.Facts.Call", "JrpcProofs.Facts.Cancel", "JrpcProofs.Facts.Corr", "JrpcProofs.Facts.Frames", "JrpcProofs.Facts.Stream", "JrpcProofs.Facts.OneShot", "JrpcProofs.Trans.NormalizeID", "JrpcProofs.Trans.CancelCtx"],
         "assumptions": [
             "the peer is honest: it writes xrpc.cancel [id] only for a caller (or subscription) whose context was cancelled; the client side of that is tied by the regenerated skeletons of doRequest and handleCtxAsync",
             "over HTTP the guarantee is net/http's request-context cancellation; the library-side facts (hreq.WithContext(ctx), ctx := r.Context()) are observed by the HTTP scenario",
@@ -138,7 +138,7 @@ PROPS = {
         ],
     },
     "C16": {
-        "lean_modules": ["JrpcProofs.Props.C16", "JrpcProofs.Props.Epoch", "JrpcProofs.Facts.Reverse", "JrpcProofs.Facts.Corr", "JrpcProofs.Facts.Dispatch", "JrpcProofs.Facts.Naming", "JrpcProofs.Facts.Cancel", "JrpcProofs.Facts.Frames"],
+        "lean_modules": ["JrpcProofs.Props.C16", "JrpcProofs.Props.Epoch", "JrpcProofs.Facts.Reverse", "JrpcProofs.Facts.Corr", "JrpcProofs.Facts.Dispatch", "JrpcProofs.Facts.Naming", "JrpcProofs.Facts.Cancel", "JrpcProofs.Facts.Frames", "JrpcProofs.Trans.Naming"],
         "assumptions": [
             "context.WithValue / Value and handler-context derivation are Go's (modelled as: a handler serving connection c sees exactly the value stored for c)",
             "'gone' means the server noticed the loss (FIN, RST, client close): the server side configures no timeout, so a silent peer is never noticed there (that is C17's territory, client side only)",
